@@ -1,12 +1,12 @@
 (** C12 — Cell geometry agrees with cell ids: containment, children, bounds, distances.
     Only statements; every proof is [exact] of a lemma in Proofs/C12_*.v.  Functions named
     s2_* / r2_* are the Gallina translations regenerated from /repo on every run
-    (Gen/CellGeom.v, Gen/CellRect.v and the shared units); s2_CellID_faceIJOrientation and
-    s2_cellIDFromFaceIJ are the hand models of Model/HilbertDecode.v, cell_DistanceToEdge
-    that of Model/CellGeom.v. *)
+    (Gen/CellGeom.v, Gen/CellRect.v, Gen/CellIDFull.v and the shared units), including the
+    table-driven faceIJOrientation / cellIDFromFaceIJ; cell_DistanceToEdge is the hand model
+    of Model/CellGeom.v. *)
 From Coq Require Import ZArith Reals List Bool Floats.
 From Geo Require Import Base.GoPrim Base.F64 Base.F64Arith Gen.CellGeom Gen.CellRect Model.CellGeom
-  Proofs.C12_Float Proofs.C12_Children Proofs.C12_Main Proofs.C12_Contain Proofs.C12_Dist Proofs.C12_Acc Proofs.C12_Bounds.
+  Proofs.C12_Float Proofs.C12_Bridge Proofs.C12_Children Proofs.C12_Main Proofs.C12_Contain Proofs.C12_Dist Proofs.C12_Acc Proofs.C12_Bounds.
 Import ListNotations.
 
 (** * Subdivision = direct construction, bit for bit, for every non-leaf valid id *)
@@ -20,6 +20,12 @@ Theorem children_of_leaf_reports_false : forall c : Z, s2_CellID_IsLeaf c = true
   snd (s2_Cell_Children (s2_CellFromCellID c)) = false.
 Proof. exact children_leaf. Qed.
 Print Assumptions children_of_leaf_reports_false.
+
+(** the translated table-driven decode is the level-by-level Hilbert recursion, for every uint64 id *)
+Theorem faceIJOrientation_is_hilbert_recursion : forall ci : Z, (0 <= ci < 2 ^ 64)%Z ->
+  s2_CellID_faceIJOrientation ci = Model.HilbertDecode.hd_faceIJOrientation ci.
+Proof. exact faceIJOrientation_bridge. Qed.
+Print Assumptions faceIJOrientation_is_hilbert_recursion.
 
 (** the float fact behind it: centerUV's si/2^31 and the direct i/2^30 are the same float *)
 Theorem pow2_div_exact : forall x : Z, (0 <= x <= 2 ^ 30)%Z ->
